@@ -6,6 +6,7 @@ import (
 	"flag"
 	"fmt"
 	"os"
+	"runtime"
 	"runtime/debug"
 	"runtime/pprof"
 	"strconv"
@@ -22,6 +23,7 @@ func main() {
 	out := flag.String("out", "", "worker result file (internal)")
 	replay := flag.String("replay", "", "replay file")
 	flag.Parse()
+	runtime.GOMAXPROCS(1) // hand-offs between scheduler threads are cheapest on one P
 	// tiny live heaps + huge allocation rates: collect only when 768 MiB are in use
 	debug.SetGCPercent(-1)
 	debug.SetMemoryLimit(768 << 20)
